@@ -6,7 +6,7 @@ from rt import moltools as T, gen as G
 from rt.oracles import mcb as MCB
 from chython import MoleculeContainer, smiles
 from chython.containers.bonds import Bond
-from chython.exceptions import InvalidAromaticRing
+from chython.exceptions import InvalidAromaticRing, ValenceError
 
 ID = 'C13'
 RULE = ('histories over an alphabet of 17 mutators (add_atom, add_bond 1/2, delete_atom, delete_bond, charge / radical '
@@ -430,7 +430,7 @@ def run_prim(mol, st):
 
 
 # in-place normalisers and isotope edits take part in the random histories only (the exhaustive alphabet stays at 17)
-OPS_RANDOM = OPS + ['standardize', 'neutralize', 'clean_isotopes', 'fix_resonance', 'txn_isotope', 'txn_isotope', 'txn_charge', 'txn_radical']
+OPS_RANDOM = OPS + ['standardize', 'neutralize', 'clean_isotopes', 'fix_resonance', 'explicify_hydrogens', 'implicify_hydrogens', 'remove_metals', 'txn_isotope', 'txn_isotope', 'txn_charge', 'txn_radical']
 
 
 def kekule_state(mol):
@@ -634,11 +634,17 @@ def apply(ctx, mol, op, k, hist):
         mol.clean_stereo()
         hist.append(('clean_stereo',))
         return mol, True
-    if op in ('standardize', 'neutralize', 'clean_isotopes', 'fix_resonance'):
+    if op in ('standardize', 'neutralize', 'clean_isotopes', 'fix_resonance', 'explicify_hydrogens', 'implicify_hydrogens', 'remove_metals'):
         if any(x.implicit_hydrogens is None for _, x in mol.atoms()):
             return mol, False       # normalisation is defined for valence-valid molecules
         hist.append((op,))
-        getattr(mol, op)()
+        try:
+            getattr(mol, op)()
+        except ValenceError:
+            # documented refusal (e.g. a hydrogen atom with a double bond made by an earlier random edit): nothing was changed
+            hist.pop()
+            ctx.count('normalisers.refused-valence-error')
+            return mol, False
         ctx.count('normalisers.applied')
         return mol, True
     if op == 'txn_isotope':
@@ -805,7 +811,7 @@ def replay(ctx, mechanism, w):
                 mol.kekule()
             elif name == 'clean_stereo':
                 mol.clean_stereo()
-            elif name in ('standardize', 'neutralize', 'clean_isotopes', 'fix_resonance'):
+            elif name in ('standardize', 'neutralize', 'clean_isotopes', 'fix_resonance', 'explicify_hydrogens', 'implicify_hydrogens', 'remove_metals'):
                 getattr(mol, name)()
             elif name == 'txn_isotope':
                 with mol:
